@@ -154,7 +154,7 @@ Lemma accepted_history_shutdown_safe h w :
   validate h w = true ->
   no_101_after_return_b h = true /\ no_503_before_shutdown_b h = true.
 Proof.
-  intros V. destruct (validate_run h w V) as [ls [s [P _]]]. split.
+  intros V. destruct (validate_run h w V) as [ls [s P]]. split.
   - rewrite <- no_101_norm. apply (model_history_no_101_after_return ls init s _ inv_init P).
   - rewrite <- no_503_norm. apply (model_history_no_503_before_shutdown ls init s _ inv_init calm_init P).
 Qed.
